@@ -88,22 +88,8 @@ def run_cb(sess, spec, K=2, loop_bound=3, timeout_s=1800, max_paths=3000000, sce
     acc = new_acc()
     nproc = int(os.environ.get('IRSYM_CB_PROCS', '16'))
     if nproc > 1:
-        # breadth-first until there are enough independent subtrees, then one forked worker per subtree
-        _dfs(eng, spec, scenario, final, work, deadline, first_only, acc, stop_at=int(os.environ.get("IRSYM_CB_SPLIT", "32")) * nproc, bfs=True)
-    if work and not (acc['violations'] and first_only) and nproc > 1:
-        global _CTX
-        _CTX = (eng, spec, scenario, final, work, deadline, first_only)
-        import multiprocessing as mp
         base_instrs = eng.stats['instrs']
-        pool = mp.get_context('fork').Pool(min(nproc, len(work)))
-        try:
-            for res in pool.imap_unordered(_worker, range(len(work))):
-                merge_acc(acc, res)
-                if acc['violations'] and first_only:
-                    break
-        finally:
-            pool.terminate()
-            pool.join()
+        _steal_dfs(eng, spec, scenario, final, work, deadline, first_only, acc, nproc)
         eng.stats['instrs'] = base_instrs + acc['instrs']
         work = []
     else:
@@ -120,7 +106,7 @@ def run_cb(sess, spec, K=2, loop_bound=3, timeout_s=1800, max_paths=3000000, sce
         v.trace = d['trace']
         if d.get('frozen') is not None:
             v.freeze = d['frozen']
-            v.subject_thread = subject
+            v.subject_thread = d.get('subject', subject)
         violations.append(v)
     tv_ok = 0
     tv_problem = None
@@ -162,21 +148,94 @@ def merge_acc(a, b):
         a['sample'] = b['sample']
 
 
-def _worker(i):
-    eng, spec, scenario, final, work, deadline, first_only = _CTX
-    acc = new_acc()
-    i0 = eng.stats['instrs']
-    q0 = eng.nqueries
+def _steal_dfs(eng, spec, scenario, final, work, deadline, first_only, acc, nproc):
+    """Depth-first exploration spread over up to nproc processes by work splitting: a process that has at least two
+    pending states while fewer than nproc processes are busy forks a child and hands it the older half of its stack
+    (the bigger subtrees). States hold z3 terms and cannot be sent between processes, a fork copies them for free;
+    results (plain dicts) come back through a queue."""
+    import multiprocessing as mp
+    ctx = mp.get_context('fork')
+    active = ctx.Value('i', 1)
+    launched = ctx.Value('i', 0)
+    stop = ctx.Value('i', 0)
+    q = ctx.Queue()
+
+    def run(work, acc):
+        i0 = eng.stats['instrs']
+        q0 = eng.nqueries
+        kids = []
+        while work and not stop.value:
+            _dfs(eng, spec, scenario, final, work, deadline, first_only, acc, budget=48, widen=4 * nproc)
+            if acc['violations'] and first_only:
+                stop.value = 1
+                break
+            if len(work) >= 2 and active.value < nproc:
+                go = False
+                with active.get_lock():
+                    if active.value < nproc:
+                        active.value += 1
+                        go = True
+                if go:
+                    with launched.get_lock():
+                        launched.value += 1
+                    pid = os.fork()
+                    if pid == 0:
+                        child(work[0::2])
+                    kids.append(pid)
+                    del work[0::2]
+        acc['instrs'] += eng.stats['instrs'] - i0
+        acc['queries'] += eng.nqueries - q0
+        for pid in kids:
+            try:
+                os.waitpid(pid, os.WNOHANG)
+            except OSError:
+                pass
+
+    def child(w):
+        res = new_acc()
+        t_ = time.time()
+        n_ = len(w)
+        try:
+            run(w, res)
+            if os.environ.get('IRSYM_CB_DEBUG'):
+                print('child %d: got %d states, did %d paths in %.1fs, active=%d' % (os.getpid(), n_, res['paths'], time.time() - t_, active.value), flush=True)
+        except BaseException as e:     # Unsupported etc.: the parent must hear about it
+            res['inconclusive'].append('%s: %s' % (type(e).__name__, str(e)[:300]))
+        try:
+            q.put(res)
+            q.close()
+            q.join_thread()
+        finally:
+            with active.get_lock():
+                active.value -= 1
+            os._exit(0)
+
     try:
-        _dfs(eng, spec, scenario, final, [work[i]], deadline, first_only, acc)
-    except Exception as e:     # Unsupported etc.: the parent must hear about it
-        acc['inconclusive'].append('%s: %s' % (type(e).__name__, str(e)[:300]))
-    acc['instrs'] = eng.stats['instrs'] - i0
-    acc['queries'] = eng.nqueries - q0
-    return acc
+        # the root only collects (a worker blocks on its result until somebody reads it)
+        launched.value = 1
+        if os.fork() == 0:
+            child(work)
+        got = 0
+        while got < launched.value:
+            try:
+                res = q.get(timeout=max(5.0, deadline - time.time() + 30))
+            except Exception:
+                acc['inconclusive'].append('a worker process did not report back')
+                break
+            merge_acc(acc, res)
+            got += 1
+            if acc['violations'] and first_only:
+                stop.value = 1
+    finally:
+        stop.value = 1
+    try:
+        while os.waitpid(-1, os.WNOHANG)[0]:
+            pass
+    except OSError:
+        pass
 
 
-def _dfs(eng, spec, scenario, final, work, deadline, first_only, acc, stop_at=None, bfs=False):
+def _dfs(eng, spec, scenario, final, work, deadline, first_only, acc, stop_at=None, bfs=False, budget=None, widen=0):
     """Explore the states in `work` (modified in place). With stop_at: return as soon as that many states are
     pending (the caller distributes them)."""
     deferred = []
@@ -184,11 +243,16 @@ def _dfs(eng, spec, scenario, final, work, deadline, first_only, acc, stop_at=No
         if not work or (stop_at is not None and len(work) + len(deferred) >= stop_at):
             work.extend(deferred)
             return
+        if budget is not None:
+            budget -= 1
+            if budget < 0:
+                return
         if time.time() > deadline:
             acc['inconclusive'].append('time budget exhausted')
             del work[:]
             return
-        s = work.pop(0) if bfs else work.pop()
+        # widen: while few states are pending take the oldest (biggest subtree) first, so that there is something to share
+        s = work.pop(0) if (bfs or len(work) < widen) else work.pop()
         if bfs and s.cb_frozen is not None and s.status == 'running':
             # freeze mode: the solo run of the subject is a leaf task; leave it to the workers
             deferred.append(s)
@@ -230,11 +294,18 @@ def _dfs(eng, spec, scenario, final, work, deadline, first_only, acc, stop_at=No
                              'schedule': sched, 'log': event_log(eng, s), 'frozen': s.cb_frozen, 'subject': s.thread if s.cb_frozen is not None else None}
         for ob in s.oblig:
             acc['nob'] += 1
-            if ob.kind in ('bound', 'blocking') and s.cb_frozen is not None and ob.thread == s.thread:
-                # freeze mode: the subject, running alone, does not finish
+            spin = ob.kind == 'blocking' or str(ob.ident).startswith('spin:')
+            if ob.kind in ('bound', 'blocking') and ob.thread == s.thread and s.thread != 0 and (
+                    s.cb_frozen is not None or (spec.get('hang_is_violation') and spin and s.stacks is not None)):
+                # freeze mode: the subject, running alone, does not finish. Otherwise (hang_is_violation): the running
+                # thread went round a loop on concrete memory with no other thread moving - it is waiting for one of the
+                # suspended threads; confirmed natively by suspending those for ever at this point.
                 d = violation_dict(eng, s, ob, None)
+                if s.cb_frozen is None:
+                    d['frozen'] = sorted(s.stacks)
+                    d['subject'] = s.thread
                 d['kind'] = 'hang'
-                d['msg'] = 'running alone with threads %s suspended for ever, the operation does not finish: %s' % (s.cb_frozen, ob.msg)
+                d['msg'] = 'running alone with threads %s suspended for ever, the operation does not finish: %s' % (d['frozen'], ob.msg)
                 acc['violations'].append(d)
                 continue
             if ob.kind == 'bound':
